@@ -95,6 +95,10 @@ Proof. vm_compute. split; reflexivity. Qed.
 Theorem C16_check_cdt_sound : forall p tris, check_cdt1 p tris = true -> CdtSpec p (map tri_ccw tris).
 Proof. exact check_cdt1_sound. Qed.
 Print Assumptions C16_check_cdt_sound.
+Theorem C16_check_cdt_multi_sound : forall ps tris, check_cdt ps tris = true ->
+  (forall t, In t tris -> owner_count (map poly6 ps) t = 1) /\ forall p, In p ps -> CdtSpec p (map tri_ccw (owned_by p tris)).
+Proof. exact check_cdt_sound. Qed.
+Print Assumptions C16_check_cdt_multi_sound.
 Theorem C16_cdt_area_from_manifold : forall p ts, CdtSpec p ts -> area_sum ts = zsum (map cross (noded_boundary p)).
 Proof. exact cdt_area_from_manifold. Qed.
 Print Assumptions C16_cdt_area_from_manifold.
